@@ -10,16 +10,16 @@ namespace Ptk.C10
 open Ptk.Py
 
 /-- Prop form of `complete` -/
-def Complete (t : Text) : Prop := (tkRun tk0 t).st = .ground
+def Complete (t : CText) : Prop := (tkRun tk0 t).st = .ground
 
-instance (t : Text) : Decidable (Complete t) := by unfold Complete; infer_instance
+instance (t : CText) : Decidable (Complete t) := by unfold Complete; infer_instance
 
-theorem complete_iff (t : Text) : complete t = true ↔ Complete t := by
+theorem complete_iff (t : CText) : complete t = true ↔ Complete t := by
   simp [complete, Complete]
 
 /-! ### the completed-token list only grows at the front -/
 
-theorem groundStep_out (out o : List Text) (c : Char) :
+theorem groundStep_out (out o : List CText) (c : CP) :
     groundStep (out ++ o) c = ⟨(groundStep out c).st, (groundStep out c).cur, (groundStep out c).out ++ o⟩ := by
   unfold groundStep
   split
@@ -28,7 +28,7 @@ theorem groundStep_out (out o : List Text) (c : Char) :
     · rfl
     · split <;> rfl
 
-theorem tkStep_out (st : TS) (cur : Text) (out o : List Text) (c : Char) :
+theorem tkStep_out (st : TS) (cur : CText) (out o : List CText) (c : CP) :
     tkStep ⟨st, cur, out ++ o⟩ c =
       ⟨(tkStep ⟨st, cur, out⟩ c).st, (tkStep ⟨st, cur, out⟩ c).cur, (tkStep ⟨st, cur, out⟩ c).out ++ o⟩ := by
   cases st <;> simp only [tkStep, finishTok]
@@ -60,7 +60,7 @@ theorem tkStep_out (st : TS) (cur : Text) (out o : List Text) (c : Char) :
       · rfl
       · split <;> rfl
 
-theorem tkRun_out (t : Text) (st : TS) (cur : Text) (out o : List Text) :
+theorem tkRun_out (t : CText) (st : TS) (cur : CText) (out o : List CText) :
     tkRun ⟨st, cur, out ++ o⟩ t =
       ⟨(tkRun ⟨st, cur, out⟩ t).st, (tkRun ⟨st, cur, out⟩ t).cur, (tkRun ⟨st, cur, out⟩ t).out ++ o⟩ := by
   induction t generalizing st cur out with
@@ -70,14 +70,14 @@ theorem tkRun_out (t : Text) (st : TS) (cur : Text) (out o : List Text) :
     rw [tkStep_out]
     exact ih _ _ _
 
-theorem tkRun_append (k : TK) (a b : Text) : tkRun k (a ++ b) = tkRun (tkRun k a) b := by
+theorem tkRun_append (k : TK) (a b : CText) : tkRun k (a ++ b) = tkRun (tkRun k a) b := by
   simp [tkRun, List.foldl_append]
 
 /-! ### in the ground state no token is in progress -/
 
 def GroundNil (k : TK) : Prop := k.st = .ground → k.cur = []
 
-theorem groundStep_groundNil (out : List Text) (c : Char) : GroundNil (groundStep out c) := by
+theorem groundStep_groundNil (out : List CText) (c : CP) : GroundNil (groundStep out c) := by
   unfold groundStep GroundNil
   split
   · intro h; cases h
@@ -85,13 +85,13 @@ theorem groundStep_groundNil (out : List Text) (c : Char) : GroundNil (groundSte
     · intro h; cases h
     · split <;> intro _ <;> rfl
 
-theorem tkStep_groundNil (k : TK) (c : Char) : GroundNil (tkStep k c) := by
+theorem tkStep_groundNil (k : TK) (c : CP) : GroundNil (tkStep k c) := by
   obtain ⟨st, cur, out⟩ := k
   cases st <;> simp only [tkStep]
   · exact groundStep_groundNil _ _
   all_goals (repeat' split) <;> first | exact groundStep_groundNil _ _ | (intro h; first | rfl | cases h)
 
-theorem tkRun_groundNil (t : Text) (k : TK) (hk : GroundNil k) : GroundNil (tkRun k t) := by
+theorem tkRun_groundNil (t : CText) (k : TK) (hk : GroundNil k) : GroundNil (tkRun k t) := by
   induction t generalizing k with
   | nil => exact hk
   | cons c cs ih =>
@@ -102,7 +102,7 @@ theorem tk0_groundNil : GroundNil tk0 := fun _ => rfl
 
 /-! ### composition -/
 
-theorem run_of_complete {a : Text} (ha : Complete a) :
+theorem run_of_complete {a : CText} (ha : Complete a) :
     tkRun tk0 a = ⟨.ground, [], (tkRun tk0 a).out⟩ := by
   have hn := tkRun_groundNil a tk0 tk0_groundNil ha
   unfold Complete at ha
@@ -111,7 +111,7 @@ theorem run_of_complete {a : Text} (ha : Complete a) :
   simp at ha hn
   simp [ha, hn]
 
-theorem ctrlTokens_of_complete {a : Text} (ha : Complete a) : ctrlTokens a = (tkRun tk0 a).out.reverse := by
+theorem ctrlTokens_of_complete {a : CText} (ha : Complete a) : ctrlTokens a = (tkRun tk0 a).out.reverse := by
   unfold ctrlTokens
   simp only
   unfold Complete at ha
@@ -119,7 +119,7 @@ theorem ctrlTokens_of_complete {a : Text} (ha : Complete a) : ctrlTokens a = (tk
 
 /-- **Control tokens do not leak across a completed piece**: whatever follows a complete piece
     is tokenised on its own. -/
-theorem ctrlTokens_append_complete {a : Text} (b : Text) (ha : Complete a) :
+theorem ctrlTokens_append_complete {a : CText} (b : CText) (ha : Complete a) :
     ctrlTokens (a ++ b) = ctrlTokens a ++ ctrlTokens b := by
   rw [ctrlTokens_of_complete ha]
   unfold ctrlTokens
@@ -135,7 +135,7 @@ theorem ctrlTokens_append_complete {a : Text} (b : Text) (ha : Complete a) :
   · simp
   · simp [finishTok]
 
-theorem complete_append {a b : Text} (ha : Complete a) (hb : Complete b) : Complete (a ++ b) := by
+theorem complete_append {a b : CText} (ha : Complete a) (hb : Complete b) : Complete (a ++ b) := by
   unfold Complete
   rw [tkRun_append, run_of_complete ha]
   have h := tkRun_out b .ground [] [] (tkRun tk0 a).out
@@ -143,14 +143,14 @@ theorem complete_append {a b : Text} (ha : Complete a) (hb : Complete b) : Compl
   rw [h]
   exact hb
 
-theorem groundStep_clean (out : List Text) {c : Char} (hc : isControl c = false) :
+theorem groundStep_clean (out : List CText) {c : CP} (hc : isControl c = false) :
     groundStep out c = ⟨.ground, [], out⟩ := by
   unfold groundStep
   have h1 : c ≠ ESC := by intro h; subst h; exact absurd hc (by decide)
   have h2 : c ≠ CSI8 := by intro h; subst h; exact absurd hc (by decide)
   simp [h1, h2, hc]
 
-theorem tkRun_clean {t : Text} (h : Clean t) (out : List Text) :
+theorem tkRun_clean {t : CText} (h : Clean t) (out : List CText) :
     tkRun ⟨.ground, [], out⟩ t = ⟨.ground, [], out⟩ := by
   induction t with
   | nil => rfl
@@ -160,7 +160,7 @@ theorem tkRun_clean {t : Text} (h : Clean t) (out : List Text) :
     exact ih (fun x hx => h x (by simp [hx]))
 
 /-- control-free text contains no control token and leaves the tokenizer in the ground state -/
-theorem ctrlTokens_clean {t : Text} (h : Clean t) : ctrlTokens t = [] ∧ Complete t := by
+theorem ctrlTokens_clean {t : CText} (h : Clean t) : ctrlTokens t = [] ∧ Complete t := by
   have := tkRun_clean h []
   constructor
   · unfold ctrlTokens; simp only [tk0, this]; rfl
